@@ -487,10 +487,17 @@ pub struct OSim {
 
 impl OSim {
     pub fn new(cfg: &OCfg, seed: u64) -> Self {
+        Self::new_paused_app(cfg, seed, |_| {})
+    }
+
+    /// like `new`, with the application's scripted answers set before the first session starts
+    pub fn new_paused_app(cfg: &OCfg, seed: u64, init: impl FnOnce(&mut AppBehaviour)) -> Self {
         let mut k = Kernel::new(seed);
         let cb: CbLog = Default::default();
         let slog: SessionLog = Default::default();
-        let app: AppState = Arc::new(Mutex::new(AppBehaviour::default()));
+        let mut behaviour = AppBehaviour::default();
+        init(&mut behaviour);
+        let app: AppState = Arc::new(Mutex::new(behaviour));
         let (fut, handle, conn) = k.enter(|| {
             sim::outstation(
                 cfg.link(),
